@@ -707,6 +707,58 @@ def _pad_arithmetic(ctx: Ctx, pv, gpb):
     col.floor("pad_arith_terms", nchecked, 12)
 
 
+def _pad_masked_table(ctx: Ctx, f, rel: str) -> bool:
+    """S8 by value: pad_masked_sequence interpreted over exact values (sa/interp.py + sa/teval.py, private helpers of the module
+    followed) for inputs with and without a feature axis, both layouts, and masks of the full shape and of the broadcasting shapes
+    (1, T) and (N, 1): row n of the result is the selected entries of row n in order, then the padding value; the reported length is the
+    number selected - per row, also when the mask has a single row. False when outside the interpreted fragment."""
+    import numpy as np
+    from sa.interp import Interp
+    from sa.inteval import NotEvaluable
+    from sa.teval import frac_array
+    col, pkg = ctx.col, ctx.pkg
+    helpers = {st.name: st for st in pkg.module(MOD).tree.body if isinstance(st, ast.FunctionDef) and st.name.startswith("_")}
+
+    def lookup(c):
+        return helpers.get(call_name(c))
+    names = [p_.name for p_ in f.params]
+    N, T, PADV = 3, 4, -9
+    full = np.array([[1, 0, 1, 1], [0, 0, 1, 0], [1, 1, 1, 1]], dtype=bool)
+    masks = (("full", full), ("one row (1, T)", full[1:2]), ("one column (N, 1)", np.array([[True], [False], [True]])), ("nothing selected", np.zeros((N, T), dtype=bool)))
+    bad, rows = None, 0
+    try:
+        for rest in ((), (2,)):
+            x = np.arange(N * T * int(np.prod(rest or (1,)))).reshape((N, T) + rest) + 1
+            for tag, m in masks:
+                mb = np.broadcast_to(m, (N, T))
+                for bf in (True, False):
+                    xin, min_ = (x, m) if bf else (np.swapaxes(x, 0, 1), m.T)
+                    env = dict(zip(names, (frac_array(xin.tolist()), np.array(min_, dtype=bool), bf, PADV)))
+                    kind, got = Interp(lookup=lookup, tensors=True).run(f.node, env)
+                    rows += 1
+                    want_len = [int(mb[n_].sum()) for n_ in range(N)]
+                    want = np.full((N, T) + rest, PADV)
+                    for n_ in range(N):
+                        sel = x[n_][mb[n_]]
+                        want[n_, :len(sel)] = sel
+                    ok = kind == "return" and isinstance(got, tuple) and len(got) == 2 and hasattr(got[0], "shape")
+                    if ok:
+                        out = np.asarray(got[0], dtype=object)
+                        out = out if bf else np.swapaxes(out, 0, 1)
+                        ok = out.shape == want.shape and [int(v_) for v_ in out.reshape(-1).tolist()] == want.reshape(-1).tolist() \
+                            and [int(v_) for v_ in np.asarray(got[1]).reshape(-1).tolist()] == want_len
+                    if not ok and bad is None:
+                        bad = (rest, tag, bf, (np.asarray(got[0]).tolist(), np.asarray(got[1]).tolist()) if kind == "return" and isinstance(got, tuple) else f"{kind} {got}",
+                               (want.tolist() if bf else np.swapaxes(want, 0, 1).tolist(), want_len))
+    except NotEvaluable:
+        return False
+    col.count("pad_masked_table_rows", rows)
+    col.ob("G12", "S8", f"{rel}::pad_masked_sequence::value-table", bad is None,
+           (f"feature shape {bad[0]}, mask {bad[1]}, batch_first={bad[2]}: pad_masked_sequence returns (padded, lens) = {str(bad[3])[:260]}; selecting row by row "
+            f"with the mask broadcast over (N, T) gives {str(bad[4])[:260]}") if bad else "", rel, f.line, sample=dict(rows=rows))
+    return True
+
+
 def _mask_broadcast_before_counting(ctx: Ctx):
     """S8: pad_masked_sequence documents that the mask broadcasts with the first two dimensions of x. The per-row counts
     (`mask.sum(1)`) and the selection (`x.masked_select(mask...)`) must therefore read the *same*, already broadcast mask;
@@ -716,6 +768,8 @@ def _mask_broadcast_before_counting(ctx: Ctx):
     col, pkg = ctx.col, ctx.pkg
     f = pkg.func(f"{MOD}::pad_masked_sequence")
     rel = f.module.relname
+    if _pad_masked_table(ctx, f, rel):
+        return
     rd = ReachingDefs(f.node)
     mname = f.params[1].name
     sums = [c for c in own_calls(f.node) if isinstance(c.func, ast.Attribute) and c.func.attr == "sum"
@@ -894,7 +948,7 @@ def _mutants():
         M("twin:new-lens-spelled-out", P, "right_mask = (new_lens.unsqueeze(1) > arange[:Tp])", "right_mask = ((lens + pad[0] + pad[1]).unsqueeze(1) > arange[:Tp])", "", twin=True),
         M("extent-forgets-right-pad", P, "Tp = int(torch.max(torch.max(left_pad.max(), chunk_lens.max()), right_pad.max()).item())", "Tp = int(torch.max(left_pad.max(), chunk_lens.max()).item())", "output-extent-covers-every-scatter"),
         M("empty-time-axis-short-circuits", P, "if not N:\n        return (x.new_empty(x.shape), slices.new_zeros((N,)))", "if not N * T:\n        return (x.new_empty(x.shape), slices.new_zeros((N,)))", "early-return-reports-the-requested-lengths"),
-        M("counts-on-unbroadcast-mask", P, "mask = mask.expand(x.shape[:2])\n", "", "counts-read-the-broadcast-mask"),
+        M("counts-on-unbroadcast-mask", P, "mask = mask.expand(x.shape[:2])\n", "", "pad_masked_sequence::value-table"),
         M("twin:rename-left-max", P, "left_max", "lmax", "", -1, twin=True),
     ]
 
